@@ -161,7 +161,7 @@ def geotherm(ctx, rng, tmp, geo_main):
     f = lambda t, p: 300.0 + 0.02 * t + 1.5 * p + 1e-5 * t * p + 40.0 * numpy.sin(t / 900.0) * numpy.cos(p / 40.0)
     g2 = lambda t, p: 80.0 - 0.01 * t + 0.9 * p + 5.0 * numpy.cos(t / 700.0 + p / 55.0)
     errs = []
-    for res_i, (nt, npp) in enumerate(((9, 9), (17, 17))):
+    for res_i, (nt, npp) in enumerate(((9, 9), (17, 17), (13, 13))):
         d = Path(tempfile.mkdtemp(dir=tmp))
         tv = numpy.linspace(300.0, 2700.0, nt)
         pv = numpy.linspace(0.0, 120.0, npp)
@@ -178,15 +178,19 @@ def geotherm(ctx, rng, tmp, geo_main):
         nodes[0], nodes[1], nodes[2] = (nt - 1, npp - 1), (0, 0), (nt - 1, int(rng.integers(0, npp)))      # corners and the last row
         offp = rng.uniform(5.0, 115.0, 8)
         offt = rng.uniform(400.0, 2600.0, 8)
+        whole = res_i == 2          # third pass: a geotherm file whose numbers are all written without a decimal point (1500 37 660)
+        if whole:
+            offp, offt = numpy.round(offp) + 0.0, numpy.round(offt) + 0.0
         P = [pv[j] for _, j in nodes] + list(offp)
         T = [tv[i] for i, _ in nodes] + list(offt)
         depth = [100.0 + 7.0 * k for k in range(len(P))]
         # column names: the defaults (P, T), or other names announced with the options as documented in the command's help
         # (--t-col: "name of geotherm pressure column", --p-col: "name of geotherm temperature column")
         pname, tname = ("P", "T") if res_i == 0 else ("pressure_GPa", "temperature_K")
-        gt = [f"{pname} {tname} D"] + [f"{p!r} {t!r} {dd!r}" for p, t, dd in zip(map(float, P), map(float, T), depth)]
+        num = (lambda x: str(int(round(x)))) if whole else (lambda x: repr(float(x)))
+        gt = [f"{pname} {tname} D"] + [f"{num(p)} {num(t)} {num(dd)}" for p, t, dd in zip(P, T, depth)]
         (d / "geotherm.txt").write_text("\n".join(gt) + "\n")
-        ctx.count({"geotherm": [nt, npp], "columns": [pname, tname]})
+        ctx.count({"geotherm": [nt, npp], "columns": [pname, tname], "whole_numbers": whole})
         opts = [] if res_i == 0 else ["--t-col", pname, "--p-col", tname]
         with cwd(d):
             r = CliRunner().invoke(geo_main, ["-g", "geotherm.txt", *opts, "-v", f"c11s,{var2}"])
@@ -206,6 +210,12 @@ def geotherm(ctx, rng, tmp, geo_main):
                     ctx.violation(f"extract-geotherm at the grid node (T={tv[i]}, P={pv[j]}) returns {vals[k, col]} for {name}, the table entry is {fn(tv[i], pv[j])}",
                                   {"node": [int(i), int(j)]}, {"clause": "geotherm_node", "var": name})
         err = max(float(numpy.max(numpy.abs(vals[5:, 3] - f(numpy.array(offt), numpy.array(offp))))), 1e-12)
+        if whole:
+            # same smooth function on a grid between the two above: the error lies below that of the coarser one
+            if errs and not err <= max(errs[0], 2e-3):
+                ctx.violation(f"extract-geotherm on a geotherm written in whole numbers: off-node error {err:.3g} on the 13 x 13 grid exceeds the {errs[0]:.3g} of the 9 x 9 grid",
+                              {"error": err, "coarse": errs[0]}, {"clause": "geotherm_whole_numbers"})
+            continue
         errs.append(err)
     if len(errs) == 2 and not errs[1] <= max(errs[0] / 2.0, 2e-3):
         ctx.violation(f"extract-geotherm does not converge under grid refinement: error {errs[0]:.3g} -> {errs[1]:.3g}", {"errors": errs}, {"clause": "geotherm_convergence"})
